@@ -42,7 +42,7 @@ MUST_FIRE = {"quick": ["ck_zero_judged", "ck_wrong_judged", "ck_good_judged", "c
 HEX4 = re.compile(rb"^[0-9A-Fa-f]{4}$")
 # a message object has a call history too: what was read from it before is_valid is evaluated
 ACCESSORS = ["identification_line", "payload", "as_bytes", "expected_checksum", "end_line", "data_lines", "is_valid", "message_type", "__str__", "__len__"]
-FAULTS = ["bitflip", "bitflip", "ck_replace", "ck_replace", "ck_replace", "bang_inject", "nonascii_inject", "ident_damage"]
+FAULTS = ["bitflip", "bitflip", "ck_replace", "ck_replace", "ck_replace", "bang_inject", "paren_to_bang", "nonascii_inject", "ident_damage"]
 
 
 def gen(rng, tier, index):
@@ -103,6 +103,13 @@ def apply(spec, faults):
             raw[p] ^= 1 << f["bit"]
         elif f["k"] == "bang_inject":
             raw.insert(p, 0x21)
+        elif f["k"] == "paren_to_bang":  # the single-bit flip ')' (0x29) -> '!' (0x21) at the end of a data line
+            q = raw.find(b")\r\n", p)
+            if q < 0:
+                q = raw.find(b")\r\n")
+            if q < 0:
+                continue
+            raw[q] = 0x21
         elif f["k"] == "nonascii_inject":
             raw.insert(p, f["val"])
         else:
@@ -125,19 +132,28 @@ def touch(readout, pre, bump):
 def judge(readout, raw: bytes, add, bump, states, origin: str, pre=()):
     """The implications V1..V5 on one DataReadout whose bytes are `raw`."""
     touch(readout, pre, bump)
+    raised = None
     try:
         valid = bool(readout.is_valid)
-    except Exception:  # noqa: BLE001 - C14's business
+    except Exception as ex:  # noqa: BLE001 - the exception itself is C14's business
         bump("is_valid_raised")
-        return
-    bangs = raw.count(b"!")
-    last_line_start = raw.rstrip(b"\r\n").rfind(b"\n") + 1
-    unambiguous = bangs == 1 and raw.find(b"!") == last_line_start and raw.startswith(b"/")
+        valid = False
+        raised = ex
+    # The end character is the '!' that starts the end line. A readout is judged when exactly one line starts with
+    # '!', it is the last line, and the bytes start with '/'; a stray '!' inside a data line does not make it ambiguous.
+    lines = raw.split(b"\n")
+    if lines and lines[-1] == b"":
+        lines.pop()
+    starts = [i for i, ln in enumerate(lines) if ln.startswith(b"!")]
+    unambiguous = len(starts) == 1 and starts[0] == len(lines) - 1 and raw.startswith(b"/") and len(lines) >= 2
     if not unambiguous:
         bump("ambiguous_not_judged")
         return
     bump(f"judged_{origin}")
-    end = raw.find(b"!")
+    end = sum(len(ln) + 1 for ln in lines[:-1])
+    stray_bang = b"!" in raw[:end]
+    if stray_bang:
+        bump("stray_bang_inside_a_line")
     after = raw[end + 1 :].strip(b"\r\n \t")
     crc = p1_ref.crc16_arc_bits(raw[: end + 1])
     first = p1_ref.first_line(raw)
@@ -161,11 +177,12 @@ def judge(readout, raw: bytes, add, bump, states, origin: str, pre=()):
         add("V1", "valid-with-malformed-identification", f"is_valid=True but first line {first[:40]!r} is not an identification line ({origin})")
     if valid and given is not None and given != crc:
         add("V2", f"valid-with-wrong-checksum given={'0000' if given == 0 else 'nonzero'}", f"is_valid=True, transmitted checksum {after!r}, CRC16 of '/'..'!' is {crc:04X} ({origin}); readout {raw[:50]!r}...")
-    if (given is None and ck_class == "none" or given is not None and given == crc and after == after.upper()) and strict and ascii_:
+    if (given is None and ck_class == "none" or given is not None and given == crc and after == after.upper()) and strict and ascii_ and not stray_bang:
         bump("V4_checked")
         if not valid:
-            add("V4", f"wellformed-readout-reported-invalid ck={ck_class}", f"is_valid=False for a correctly check-summed all-ASCII readout with well-formed ident ({origin}): {raw[:60]!r}...")
-    if valid:
+            how = f"is_valid raised {type(raised).__name__}" if raised is not None else "is_valid=False"
+            add("V4", f"wellformed-readout-reported-invalid ck={ck_class}{' (raised)' if raised is not None else ''}", f"{how} for a correctly check-summed all-ASCII readout with well-formed ident ({origin}): {raw[:60]!r}...")
+    if valid and not stray_bang:
         want = raw[len(first) : end]
         try:
             got = readout.payload
